@@ -170,6 +170,8 @@ func c10Drivers() []concParams {
 		{Name: "overflow-handoff", Cfg: "wide/bytewise", Clients: [][]string{{"put:a"}, {"putL:b"}, {"put:a"}}, QB: 2, TB: 3, Expect: "noerr"},
 		{Name: "no-merge", Cfg: "default/bytewise", NoMerge: true, Clients: [][]string{{"put:a"}, {"put:b"}, {"put:a"}}, QB: 2, TB: 3, Expect: "noerr"},
 		{Name: "writers-vs-close", Cfg: "default/bytewise", Clients: [][]string{{"put:a"}, {"put:b"}, {"close"}}, QB: 2, TB: 3},
+		{Name: "overflow-handoff-vs-close", Cfg: "wide/bytewise", Clients: [][]string{{"put:a"}, {"putL:b"}, {"put:a"}, {"close"}}, QB: 2, TB: 3},
+		{Name: "overflow-handoff-vs-readonly", Cfg: "wide/bytewise", Clients: [][]string{{"put:a"}, {"putL:b"}, {"put:a"}, {"ro"}}, QB: 2, TB: 3},
 		{Name: "writers-vs-tr", Cfg: "default/bytewise", Clients: [][]string{{"put:a"}, {"put:b"}, {"tr:+a,+b"}}, QB: 2, TB: 2, Expect: "noerr"},
 		{Name: "writers-vs-compact", Cfg: "default/bytewise", Pre: []string{"put:a"}, Clients: [][]string{{"put:a"}, {"put:b"}, {"cr"}}, QB: 1, TB: 2, Expect: "noerr"},
 		{Name: "writers-vs-readonly", Cfg: "default/bytewise", Clients: [][]string{{"put:a"}, {"put:b"}, {"ro"}}, QB: 2, TB: 3},
